@@ -5,6 +5,9 @@ import json, subprocess
 HOOK_COMMITS = []  # filled in as hook commits are made in /repo
 
 CHECKS = {
+ "C04": dict(cat="exploration", technique="runtime reference-model monitor over statement sequences: every graph listed before and after each statement and compared with the statement's stated effect (union / difference / per-row template instantiation, structural reification check, untouched graphs unchanged, rejected statements change nothing)",
+   text="Sampled: 640 (quick) to 8000 (thorough) sequences of 10-25 statements of all data and graph kinds with duplicates, overlaps, several targets, bulk sizes 1/3/1000, reification and statements rejected before execution.",
+   note="CONSTRUCT rows come from the C03 reference evaluator and are cross-checked against the real SELECT (disagreement => inconclusive, counted); explicit blank nodes are excluded (two admissible readings); one known finding (WHERE without bindings).", ref="DESIGN.md §5 C04, Appendix A"),
  "C14": dict(cat="exploration", technique="runtime metamorphic monitor: multisets of canonical rows of variants of one query (renamed bindings, chanSize, GOMAXPROCS, repeated runs, data partitioned over FROM graphs, clause permutations, data supersets, total ORDER BY repeated 20x) must agree; race detector on the parallel variants",
    text="Sampled: ~1 k (quick) to ~10 k (thorough) base queries x 12-35 variants each, over sparse and dense data; a race-instrumented sample of the same workload.",
    note="No reference model involved; equality of rows is accessor-based canonical equality; the sequence check only applies when every output column holds one kind of value.", ref="DESIGN.md §5 C14"),
